@@ -248,14 +248,13 @@ class C01(Prop):
     title = 'Transaction/block wire format: exact bytes, lossless round trip, clean errors'
     lean_targets = ['BtcVerif.Props.C01']
     table_groups = ['Wire']
-    theorems_planned = ['BtcVerif.C01.' + t for t in (
-        'ser_eq_spec', 'serHeader_eq_spec', 'serBlock_eq_spec', 'marker_iff',
-        'de_ser', 'deHeader_ser', 'deBlock_ser',
-        'prefix_trunc', 'header_prefix_trunc', 'block_prefix_trunc',
-        'extra_data', 'header_extra_data', 'block_extra_data',
-        'padding_allowed', 'header_padding_allowed', 'block_padding_allowed',
-        'exact_ok', 'header_exact_ok', 'block_exact_ok')]
-    theorems = []
+    theorems = ['BtcVerif.C01.' + t for t in (
+        'ser_eq_spec', 'ser_stripped_eq_spec', 'serHeader_eq_spec', 'serBlock_eq_spec', 'header_length',
+        'marker_iff', 'de_ser', 'normTx_fields', 'deHeader_ser', 'deBlock_ser',
+        'exact_ok', 'prefix_trunc', 'extra_data', 'padding_allowed',
+        'header_exact_ok', 'header_prefix_trunc', 'header_extra_data', 'header_padding_allowed',
+        'block_exact_ok', 'block_prefix_trunc', 'block_extra_data', 'block_padding_allowed',
+        'tx_codec_sound', 'header_codec_sound', 'block_codec_sound')]
     anchors = [('bitcoin/core/serialize.py', 'ser_read'),
                ('bitcoin/core/serialize.py', 'Serializable.serialize'),
                ('bitcoin/core/serialize.py', 'Serializable.deserialize'),
